@@ -1,6 +1,7 @@
 import RemocModel.Table.Lemmas
 import RemocModel.Table.OneWay
 import RemocModel.Props.C08
+import RemocModel.Table.ConnSys
 set_option linter.unusedSimpArgs false
 
 /-!
@@ -314,3 +315,65 @@ example :
   decide
 
 end Remoc.Table
+
+/-! ## The two-endpoint system (`Table/Conn.lean`): statements over ALL interleavings -/
+
+namespace Remoc.Table.Sys
+open Remoc.Wire Remoc.Table
+
+def side (s : St) : Who → Side
+  | .A => s.a
+  | .B => s.b
+
+/-- the wire towards side `x` -/
+def wireTo (s : St) : Who → List Msg
+  | .A => s.toA
+  | .B => s.toB
+
+/-- **Nothing is in flight for a port that is not in the table** (all interleavings): in every
+reachable state, for every port number `p` without an entry in the table of a side, the wire towards
+that side holds no `SendFinish p` / `ReceiveClose p` / `ReceiveFinish p` and no answer
+(`PortOpened p _` / `Rejected p _`).  This is what makes re-use of a released number safe. -/
+theorem no_frame_for_absent_port (mpA cqA mpB cqB : Nat) (ls : List (Who × Lab)) (x : Who) (p : Nat) :
+    let s := run (init mpA cqA mpB cqB) ls
+    lookup (side s x).ep.ports p = none → noneFor (wireTo s x) p ∧ p ∉ respPorts (wireTo s x) := by
+  intro s hn
+  have hi := inv2_run _ ls (inv2_init mpA cqA mpB cqB)
+  cases x with
+  | A =>
+    refine ⟨hi.pba.rx_none p hn, fun hin => ?_⟩
+    have := reqInv_resp_connecting hi.r.ab p hin
+    simp only [side] at hn; rw [hn] at this; simp at this
+  | B =>
+    refine ⟨hi.pab.rx_none p hn, fun hin => ?_⟩
+    have := reqInv_resp_connecting hi.r.ba p hin
+    simp only [side] at hn; rw [hn] at this; simp at this
+
+/-- **A freed port is unreferenced** (all interleavings): whenever a step of side `x` removes the
+entry of port `p` from its table (`maybe_free_port`: all four flags set), no message naming `p` as
+`x`-local port is in flight towards `x` in the resulting state — so the number can be handed out
+again at once. -/
+theorem freed_port_unreferenced (mpA cqA mpB cqB : Nat) (ls : List (Who × Lab)) (x : Who) (l : Lab) (s' : St)
+    (p : Nat) (st : PortSt) :
+    let s := run (init mpA cqA mpB cqB) ls
+    step s x l = some s' → lookup (side s x).ep.ports p = some st → lookup (side s' x).ep.ports p = none →
+    noneFor (wireTo s' x) p ∧ p ∉ respPorts (wireTo s' x) := by
+  intro s hs _ hn
+  have : s' = run (init mpA cqA mpB cqB) (ls ++ [(x, l)]) := by
+    rw [run_append]; show s' = run s [(x, l)]; simp only [run, hs]
+  rw [this] at hn ⊢
+  exact no_frame_for_absent_port mpA cqA mpB cqB (ls ++ [(x, l)]) x p hn
+
+/-- non-vacuity: port 1@A / 7@B is opened, all four halves are dropped; the last delivery at A frees
+port 1 (entry present before, absent after) and nothing for port 1 is in flight towards A -/
+example :
+    let pre : List (Who × Lab) := [(.A, .startConnect 1 true), (.A, .dispConn), (.B, .deliver), (.B, .takeReq true),
+      (.B, .acceptReq 1 7), (.B, .dispPort), (.A, .deliver), (.A, .dropSender 1), (.A, .dropReceiver 1),
+      (.B, .dropSender 7), (.B, .dropReceiver 7), (.A, .dispPort), (.A, .dispPort), (.B, .dispPort), (.B, .dispPort),
+      (.A, .deliver)]
+    let s := run (init 4 2 4 2) pre
+    (lookup s.a.ep.ports 1).isSome ∧ (lookup (run s [(.A, .deliver)]).a.ep.ports 1) = none ∧
+    (step s .A .deliver).isSome ∧ s.a.ep.allocated = [1] ∧ (run s [(.A, .deliver)]).a.ep.allocated = [] := by
+  decide
+
+end Remoc.Table.Sys
